@@ -116,7 +116,7 @@ def history(rng, nops, blink=True, graphic=True, sized=True, ops_weights=None, b
     """returns the script line (without oracle config)"""
     if behbits is None:
         behbits = rng.randrange(32)
-    w, h = rng.choice([(1, 1), (2, 2), (3, 2), (4, 3), (5, 5), (10, 4), (40, 12), (80, 24), (rng.randrange(1, 41), rng.randrange(1, 13))])
+    w, h = rng.choice([(1, 1), (2, 2), (3, 2), (4, 3), (5, 5), (10, 4), (40, 12), (80, 24), (250, 2), (3, 120), (rng.randrange(1, 41), rng.randrange(1, 13))])
     parts = ["T %d" % behbits]
     if sized:
         parts.append("sz %d %d" % (w, h))
@@ -138,7 +138,7 @@ def history(rng, nops, blink=True, graphic=True, sized=True, ops_weights=None, b
             s = ("we " if o == "we" or prev is None else "re ") + fmt_el(e)
         elif o == "ws":
             es = []
-            for _ in range(rng.choice([0, 1, 2, 3, 5, max(1, w - 1), w, w + 1])):
+            for _ in range(rng.choice([0, 1, 2, 3, 5, max(1, w - 1), w, w + 1, rng.choice([w + 1, 90, 300])])):
                 e = element(rng, prev, blink, graphic)
                 prev = e
                 es.append(e)
